@@ -819,8 +819,8 @@ def gen_cases(rng, tier, have):
     for q in primes:
         if q < PS or (q < 3000 and q % 16 in (1, 9) and rng.chance(1, 4)):
             rng_a = range(-2, q + 3) if q < PS else [rng.range(0, q - 1) for _ in range(12)]
-            for a in rng_a:
-                C.append(mk("sqrootmodprime", [a, q], "sqrtp", a=a, p=q, k=1))
+            for a in rng_a:       # model traces: every a for q <= 50, every second a above (the oracle judges all of them)
+                C.append(mk("sqrootmodprime", [a, q], "sqrtp", a=a, p=q, k=1, nomodel=(50 < q < PS and a % 2 == 1)))
     special = [12289, 65537, 7 * 2 ** 26 + 1, 3 * 2 ** 30 + 1, 2 ** 61 - 1, 2 ** 64 - 59, 2 ** 64 + 13, 29 * 2 ** 57 + 1, 2 ** 89 - 1, 2 ** 127 - 1]
     big = [(q, "special") for q in special if is_prime(q)]
     for bits in ([61, 64, 65, 96, 128, 192, 256] if th else [61, 64, 65, 128]):
@@ -841,8 +841,8 @@ def gen_cases(rng, tier, have):
         while q ** k < (6000 if th else 2500) or k <= 3:
             qk = q ** k
             aa = range(-3, qk + 3) if qk < (6000 if th else 2500) else [rng.range(0, qk) * q ** rng.choice([0, 0, 1, 2, 3]) for _ in range(60)]
-            for a in aa:
-                C.append(mk("sqrootmodprimepower", [a, q, k], "sqrtpk", a=a, p=q, k=k))
+            for a in aa:          # model traces: every a for p^k <= 200, every third a above (the oracle judges all of them)
+                C.append(mk("sqrootmodprimepower", [a, q, k], "sqrtpk", a=a, p=q, k=k, nomodel=(200 < qk < 6000 and a % 3 != 0)))
             k += 1
     for i in range(60 if th else 14):
         q = rng.choice([3, 5, 7, 17, 41, 97, 193, 257, 65537]) if rng.chance(1, 2) else rand_prime(rng, rng.choice([20, 40, 64, 70]), rng.choice([1, 3, 5, 7, 9, 11, 13, 15]))
@@ -920,7 +920,7 @@ def gen_cases(rng, tier, have):
             for v in ("sumofsquares", "sumofsquares.det", "sumofsquares.mc", "sumofsquares.noerh"):
                 if v == "sumofsquares" and k % 3:
                     continue
-                C.append(mk(v, [k, q], "sos", k=k, p=q))
+                C.append(mk(v, [k, q], "sos", k=k, p=q, nomodel=(q > 20 and k % 2 == 1)))
         if q > 2:
             for s in range(2, q):
                 if pow(s, (q - 1) // 2, q) == q - 1 and pow(s - 1, (q - 1) // 2, q) == 1:
@@ -1065,8 +1065,11 @@ def spec(c, out, small_cache):
             if n <= 3:
                 return A == n - 1, n - 1, S_NT + k, "n=%d" % n
             return ok, "a primitive root of the prime n in (0,n)", S_NT + k, "first-phase-skips-2" if skips2 else "prime"
-        if k == "probable_prim_root" and len(t) > 1 and t[1] != "0":
-            return True, "probabilistic (incomplete factorisation)", S_NT + k, "prime"
+        if k == "probable_prim_root" and len(t) > 1 and t[1] != "0" and not ok:
+            # the function reported a non-zero error bound (incomplete factorisation of p - 1): the answer is only probable.
+            # Never counted as a pass: the case is listed as inconclusive (it does not occur for the moduli generated here)
+            UNJUDGED.append("probable_prim_root %d: error bound > 0 and the value is not a primitive root" % n)
+            return True, "probabilistic (incomplete factorisation)", S_NT + k, "prime:unjudged"
         return ok, "a primitive root of the prime n in (0,n)", S_NT + k, "prime"
     if k in ("sqrtp", "sqrtpk", "sqrt2k", "sqrtn"):
         x = int(t[0]); a = c["a"]
@@ -1144,6 +1147,8 @@ def spec(c, out, small_cache):
     raise KeyError(k)
 
 
+UNJUDGED = []              # cases the oracle could not judge (reported under coverage.inconclusive, never silently passed)
+MIN_THEOREMS = 44          # Properties.v as of phase 4: fewer re-checked theorems than this is a floor miss
 NO_MODEL = {"isqrt", "isqrtrem", "iroot", "h_gcd", "h_powmod", "h_inv", "h_invin", "h_mod"}
 
 
@@ -1369,7 +1374,7 @@ def build_impl(chk):
     return b, log, have
 
 
-def run_parallel(binary, lines, nproc=6, timeout=300, restarts=12, stall=None, max_stalls=4):
+def run_parallel(binary, lines, nproc=6, timeout=300, restarts=12, stall=None, max_stalls=4, env=None):
     """run the line-protocol binary on `lines` split round-robin over nproc processes.  A process that dies or hangs on a
     line gets the output CRASH for that line and is restarted on the rest (at most `restarts` restarts per chunk).
     timeout: limit for one process run; stall: limit for the time WITHOUT a new output line (a hang is then found after
@@ -1383,7 +1388,8 @@ def run_parallel(binary, lines, nproc=6, timeout=300, restarts=12, stall=None, m
     res = [None] * nproc
 
     def run_once(todo):
-        pr = subprocess.Popen([binary], stdin=subprocess.PIPE, stdout=subprocess.PIPE, stderr=subprocess.DEVNULL, universal_newlines=True, errors="replace")
+        pr = subprocess.Popen([binary], stdin=subprocess.PIPE, stdout=subprocess.PIPE, stderr=subprocess.DEVNULL, universal_newlines=True, errors="replace",
+                              env=(dict(os.environ, **env) if env else None))
         got = []; last = [_tm.time()]
 
         def feed():
@@ -1422,6 +1428,13 @@ def run_parallel(binary, lines, nproc=6, timeout=300, restarts=12, stall=None, m
             if len(ol) == len(todo):
                 todo = []
                 break
+            if ol and ol[-1].startswith("DOES-NOT-RETURN"):      # the per-case CPU watchdog answered for this case and ended the process
+                todo = todo[len(ol):]
+                stalls += 1
+                if stalls >= max_stalls:
+                    errs += "chunk abandoned after %d calls that did not return, %d lines not run\n" % (stalls, len(todo))
+                    break
+                continue
             errs += "rc=%s at `%s`\n" % (rc, todo[len(ol)][:200])
             outs.append("CRASH rc=%s" % rc)
             todo = todo[len(ol) + 1:]
@@ -1539,9 +1552,41 @@ def main(tier, replay=None):
         report_unsupported_inplace(chk, himpl, unsafe, listed)
     ilines = ["%s %s" % (c["iop"], " ".join(str(x) for x in c["iargs"])) for c in cases]
     tmo = 1500 if tier == "thorough" else 280
-    okr, iout, ierr = run_parallel(himpl, ilines, nproc=8, timeout=tmo, stall=240 if tier == "thorough" else 90)
-    crashed = [i for i, o in enumerate(iout) if o is None or o.startswith("CRASH")]
-    for i in crashed[:40]:
+    inconclusive = []
+    okr, iout, ierr = run_parallel(himpl, ilines, nproc=8, timeout=tmo, stall=240 if tier == "thorough" else 90,
+                                   env={"C13_CPU_BUDGET": "20" if tier == "thorough" else "8"})
+    # calls the per-case CPU watchdog cut off (8 s of CPU, 20 s in the thorough tier; the slowest call of the unchanged tree needs
+    # 0.6 s): the first three are re-run ALONE with 60 s of CPU before they are reported; if those confirm, the others are reported too
+    dnr = [i for i, o in enumerate(iout) if o is not None and o.startswith("DOES-NOT-RETURN")]
+    slow = []
+    for i in dnr[:3]:
+        ok1, o1, e1 = run_parallel(himpl, [ilines[i]], nproc=1, timeout=900, restarts=0, env={"C13_CPU_BUDGET": "60"})
+        if o1 and o1[0] is not None and not o1[0].startswith(("DOES-NOT-RETURN", "CRASH")):
+            iout[i] = o1[0]; slow.append(ilines[i][:120])
+        elif o1 and o1[0] is not None and o1[0].startswith("DOES-NOT-RETURN"):
+            iout[i] = "DOES-NOT-RETURN cpu>60s"
+        else:
+            iout[i] = None                     # the re-run itself was cut by the wall clock: inconclusive for this case, not a verdict
+            inconclusive.append("re-run of `%s` alone gave no answer within the wall-clock limit" % ilines[i][:120])
+    chk.cov["calls_cut_by_the_cpu_watchdog_but_returning_when_run_alone"] = slow
+    if dnr[3:] and not any(iout[i] is not None and iout[i].startswith("DOES-NOT-RETURN") for i in dnr[:3]):
+        for i in dnr[3:]:                      # none of the re-runs confirmed: the remaining cuts are tooling noise, not verdicts
+            iout[i] = None
+        inconclusive.append("%d calls cut by the CPU watchdog were not confirmed by a run alone" % len(dnr[3:]))
+    for i in dnr:
+        if iout[i] is not None and iout[i].startswith("DOES-NOT-RETURN"):
+            c = cases[i]
+            st = inplace_site(c)[0] if c.get("inplace") else "harness:" + bop(c)
+            chk.fail_input(st, ("inplace:out=in" + c["inplace"]) if c.get("inplace") else "does-not-return",
+                           {kk: (str(v) if isinstance(v, int) and abs(v) > 2 ** 62 else v) for kk, v in c.items()},
+                           "a result", iout[i], "the call does not return (CPU-time watchdog, confirmed by a run of this case alone)")
+    dnrset = {i for i in dnr if iout[i] is None or iout[i].startswith("DOES-NOT-RETURN")}
+    crashed = [i for i, o in enumerate(iout) if i not in dnrset and (o is None or o.startswith("CRASH"))]
+    notrun = [i for i in crashed if iout[i] is None]
+    if notrun:                                 # lines of a chunk abandoned after repeated hangs: not judged, and said so
+        inconclusive.append("%d implementation cases were not run (chunk abandoned after repeated hangs)" % len(notrun))
+        chk.cov["inconclusive"] = list(inconclusive)
+    for i in [j for j in crashed if iout[j] is not None][:40]:
         chk.fail_input("harness:" + cases[i]["iop"], "crash-or-hang", dict(cases[i]), "a result line", str(iout[i]), "the implementation crashed or hung on this case; " + ierr[-300:])
     if not okr:
         chk.broke("implementation harness failed repeatedly", ierr[-2000:])
@@ -1553,7 +1598,14 @@ def main(tier, replay=None):
     if drv:
         # a fixed pseudo-random permutation spreads the expensive traces evenly over the processes
         idx.sort(key=lambda i: (i * 2654435761) % 4294967291)
-        okm, mo, merr = run_parallel(drv, [mlines[i] for i in idx], nproc=12, timeout=tmo, restarts=3)
+        # the model is a function of its input line: identical lines (the in-place forms of one call, repeated arguments) are run once
+        uniq = {}
+        for i in idx:
+            uniq.setdefault(mlines[i], len(uniq))
+        ulines = sorted(uniq, key=uniq.get)
+        okm, umo, merr = run_parallel(drv, ulines, nproc=12, timeout=tmo, restarts=3)
+        mo = [umo[uniq[mlines[i]]] for i in idx]
+        chk.cov["distinct_model_traces"] = len(ulines)
         # a time-out of the extracted model (machine load) is an inconclusive stream, recorded, never a violation
         slow = [j for j, o in enumerate(mo) if o is None or o.startswith("CRASH rc=124")]
         died = [j for j, o in enumerate(mo) if o is not None and o.startswith("CRASH") and not o.startswith("CRASH rc=124")]
@@ -1567,7 +1619,7 @@ def main(tier, replay=None):
     ncorr = 0
     dist = {}
     nb = 0
-    crashed = set(crashed)
+    crashed = set(crashed) | dnrset
     distinct_out = {(c["iop"], tuple(c["iargs"])): iout[i] for i, c in enumerate(cases) if not c.get("inplace") and i not in crashed}
     nip = 0
     for i, c in enumerate(cases):
@@ -1626,6 +1678,28 @@ def main(tier, replay=None):
                                             "at check time by a Proth witness) + 2^64-2^32+1 + 2^251+17*2^192+1, residues of every 2-power order 2^j with the "
                                             "Tonelli-Shanks shift s-j-1 on both sides of 32/64/128, -1, (p-1)/2, small squares, the 2-Sylow generator (non-residue); "
                                             "primes next to 2^32/2^64/2^128 in every class mod 16; p^e, 2p^e, 2^e m with e and the p-adic valuation of a around the word sizes"}
+    # FLOORS on what was actually judged: a run that falls below them (tooling problem, time-outs, abandoned chunks) says so
+    njudged = sum(dist.values()); ntheorems = len(res.get("theorems", []))
+    wanted_traces = len(idx)
+    nslow = chk.cov.get("model_traces_inconclusive_timeout", 0)
+    if nslow:
+        inconclusive.append("%d model traces cut by the wall-clock limit of the model run" % nslow)
+    inconclusive += sorted(set(UNJUDGED))[:20]
+    floors = {"oracle_comparisons": (njudged, int(0.98 * len(cases))),
+              "model_correspondence_comparisons": (ncorr, int(0.95 * wanted_traces) if mout is not None else wanted_traces),
+              "in_place_cases_judged": (nip, int(0.98 * sum(1 for c in cases if c.get("inplace")))),
+              "structured_cases_judged": (sum(1 for i, c in enumerate(cases) if c.get("gen") in ("proth", "edge", "bigexp") and i not in crashed),
+                                          int(0.98 * sum(1 for c in cases if c.get("gen") in ("proth", "edge", "bigexp")))),
+              "theorems_rechecked": (ntheorems if res.get("ok") else 0, MIN_THEOREMS if not replay else 0),
+              "source_tie_rows": (sum(1 for r in chk.cov.get("source_tie", []) if r.get("agree")), len(TIE) if not replay else 0)}
+    if replay:
+        floors = {k: v for k, v in floors.items() if k in ("oracle_comparisons",)}
+    missed = ["%s: %d < floor %d" % (k, v[0], v[1]) for k, v in floors.items() if v[0] < v[1]]
+    chk.cov["floors"] = {k: {"judged": v[0], "floor": v[1]} for k, v in floors.items()}
+    chk.cov["inconclusive"] = inconclusive
+    chk.cov["floor_missed"] = missed
+    if missed or inconclusive:
+        print("INCONCLUSIVE-PARTS property=C13 " + "; ".join(missed + inconclusive)[:600])
     ph["compare"] = round(_t.time() - t0, 1); chk.cov["phase_seconds"] = ph
     chk.cov["distribution_by_kind_and_class"] = dist
     chk.cov["cases_without_model_oracle_only"] = len(cases) - len(idx)
